@@ -205,6 +205,14 @@ func (s *Sess) UpdatePDR(req *ie.IE) ([]report.USAReport, error) {
 			}
 		}
 	}
+	// URRs newly associated with this PDR gain a reference
+	for urrid := range newUrrids {
+		if _, ok = pdrInfo.RelatedURRIDs[urrid]; !ok {
+			if urrInfo, ok1 := s.URRIDs[urrid]; ok1 {
+				urrInfo.refPdrNum++
+			}
+		}
+	}
 	pdrInfo.RelatedURRIDs = newUrrids
 
 	return usars, err
@@ -344,7 +352,7 @@ func (s *Sess) CreateURR(req *ie.IE) error {
 			break
 		}
 	}
-	s.URRIDs[id] = &URRInfo{
+	urrInfo := &URRInfo{
 		MeasureMethod: report.MeasureMethod{
 			DURAT: req.HasDURAT(),
 			VOLUM: req.HasVOLUM(),
@@ -358,6 +366,13 @@ func (s *Sess) CreateURR(req *ie.IE) error {
 			MNOP: mInfo.HasMNOP(),
 		},
 	}
+	// PDRs created before this URR may already refer to it
+	for _, pdrInfo := range s.PDRIDs {
+		if _, ok := pdrInfo.RelatedURRIDs[id]; ok {
+			urrInfo.refPdrNum++
+		}
+	}
+	s.URRIDs[id] = urrInfo
 
 	err = s.rnode.driver.CreateURR(s.LocalID, req)
 	if err != nil {
